@@ -256,10 +256,18 @@ def gen_conversion(tree, out):
     modes, node = {}, b[k]
     while isinstance(node, ast.If):
         t = node.test
-        need(len(node.body) == 1 and isinstance(node.body[0], ast.Return) and U(node.body[0].value.func) == 'HeaderwordInfo',
-             'get_blank_header_info: mode branch does not return a HeaderwordInfo')
-        kw = {x.arg: U(x.value) for x in node.body[0].value.keywords}
-        need(kw.get('n_traces') == 'n_traces' and not node.body[0].value.args, 'get_blank_header_info: n_traces not passed on')
+        if len(node.body) == 3 and isinstance(node.body[0], ast.Assign) and U(node.body[0].targets[0]) == 'header_info' \
+                and isinstance(node.body[1], ast.If) and U(node.body[1].test) == 'seismic.filetype == Filetype.ZGY' and not node.body[1].orelse \
+                and U(node.body[2]) == 'return header_info':
+            # D54 repair: the object is built, a ZGY-ONLY statement crops its generated arrays to the window (Props/C05a.v,
+            # genx_routes), and the same object is returned: for a SEG-Y source this is `return HeaderwordInfo(...)`
+            call = node.body[0].value
+        else:
+            need(len(node.body) == 1 and isinstance(node.body[0], ast.Return), 'get_blank_header_info: mode branch does not return a HeaderwordInfo')
+            call = node.body[0].value
+        need(isinstance(call, ast.Call) and U(call.func) == 'HeaderwordInfo', 'get_blank_header_info: mode branch does not return a HeaderwordInfo')
+        kw = {x.arg: U(x.value) for x in call.keywords}
+        need(kw.get('n_traces') == 'n_traces' and not call.args, 'get_blank_header_info: n_traces not passed on')
         if 'seismicfile' in kw:
             need(kw['seismicfile'] == 'seismic', 'heuristic mode source'); kind = 'WFromCorners'
         elif kw.get('variant_header_list') == 'segyio.TraceField.enums()[0:89]':
